@@ -4,7 +4,7 @@ every sequence of combining marks over a class-covering alphabet up to a length 
 code point; out-of-range values."""
 import os, sys, json, time, subprocess, itertools, unicodedata as U
 from concurrent.futures import ThreadPoolExecutor
-from . import vbuild, common
+from . import vbuild, common, crosspass
 ROOT = common.ROOT
 BIN = os.path.join(ROOT, "build", "seq", "c17")
 SRC = [os.path.join(ROOT, "engine", "seq", "c17.c")]
@@ -142,6 +142,9 @@ def run(tier, deadline):
                 if o["t"] == "viol": e = viol.setdefault(o["sig"], [0, o["case"], v, vt, xenv]); e[0] += o["n"]
                 elif o["t"] == "stat":
                     for k in tot: tot[k] += o[k]
+    # borrowed pass: the fold / normalize entry points as a client of the public headers sees them (every argument evaluated once)
+    xv, xn, xi = crosspass.hdr("C17", lambda n: n in ("iswfc", "towfc_s", "wcsfc_s", "wcsnorm_s", "wcsnorm_decompose_s", "wcsnorm_reorder_s", "wcsnorm_compose_s", "towupper", "towlower"), tier); internal += xi
+    for sig, case, n in xv: e = viol.setdefault(sig, [0, case, "prod", tier, {}]); e[0] += n
     if internal:
         for m in internal[:10]: print("INTERNAL-ERROR:", m, file=sys.stderr)
         return 2
@@ -162,6 +165,7 @@ def run(tier, deadline):
 
 
 def replay(kv, quiet=False):
+    if crosspass.is_cross(kv["case"]): return crosspass.replay(kv, quiet)
     build(); tier = kv.get("tier", "quick"); vf, ff = gen(tier); c = kv["case"].split()
     if c[0] == "normfile":
         ln = int(c[2]); line = None
